@@ -27,6 +27,34 @@ def main():
                 for hid, spec in cmd["handles"].items():
                     handles[hid] = make_handle(cmd["path"], spec["ro"], spec["buf"])
                 rep = {"ok": True}
+            elif op == "new_gated":
+                # construct a handle, but stop right before its FIRST lock acquisition until the driver opens the gate:
+                # the driver owns the interleaving "constructor of one process vs. completed sessions of another"
+                import time
+                import fasteners
+                from vf.c04_common import make_handle
+
+                cls_ = fasteners.InterProcessReaderWriterLock
+                real_acq = cls_.acquire_write_lock
+                state = {"first": True}
+
+                def gated(self, *a, **k):
+                    if state["first"]:
+                        state["first"] = False
+                        open(cmd["at_file"], "w").close()
+                        t0 = time.time()
+                        while not os.path.exists(cmd["gate_file"]) and time.time() - t0 < 30:
+                            time.sleep(0.01)
+                    return real_acq(self, *a, **k)
+
+                cls_.acquire_write_lock = gated
+                try:
+                    handles.clear()
+                    for hid, spec in cmd["handles"].items():
+                        handles[hid] = make_handle(cmd["path"], spec["ro"], spec["buf"])
+                finally:
+                    cls_.acquire_write_lock = real_acq
+                rep = {"ok": True, "gated": not state["first"]}
             elif op == "session":
                 from vf.c04_common import run_session
 
